@@ -1,123 +1,36 @@
 (* Proofs/PingWrap.v — the identifier counter wraps and the table is not consulted: with only two
    calls outstanding the second can be handed the identifier of the first.  Then the reply to the
-   first wakes the second, and the first times out although its reply was parsed. *)
+   first wakes the second, and the first times out although its reply was parsed.
+
+   The 65535 calls in between are written as one compressed event [BulkFail 65535]
+   (Proofs/PingBulk.v bulk_sound: the same table, next identifier, counter and other calls as
+   65535 pairs Begin j; Sent j false). *)
 From PV Require Import Base.Prelude Model.Ping Model.PingTrace Proofs.Ping Proofs.PingIff.
 Open Scope N_scope.
 
-(* k calls whose send fails, call numbers j0, j0+1, ... *)
-Definition fails (j0 k : nat) : list event := map (fun j => Begin j false) (seq j0 k).
-
-Lemma fails_run fx k : forall j0 s pg0,
-  (1 <= j0)%nat -> N.of_nat (j0 + k) <= 65536 ->
-  next s = (N.of_nat j0 + 1) mod 65536 ->
-  pget (pings s) 0%nat = Some pg0 -> tget (tbl s) 1 = Some 0%nat ->
-  (forall p, (j0 <= p)%nat -> pget (pings s) p = None) ->
-  exists s', run fx s (fails j0 k) = Ok s' /\
-    next s' = (N.of_nat (j0 + k) + 1) mod 65536 /\
-    pget (pings s') 0%nat = Some pg0 /\ tget (tbl s') 1 = Some 0%nat /\
-    (forall p, (j0 + k <= p)%nat -> pget (pings s') p = None).
-Proof.
-  induction k as [|k IH]; intros j0 s pg0 Hj Hb Hn Hp Ht Hfree.
-  - exists s. cbn [fails seq map run]. rewrite Nat.add_0_r. repeat split; auto.
-  - unfold fails. cbn [seq map run step]. rewrite (Hfree j0) by lia. cbv zeta.
-    set (i := next s).
-    assert (Hi : i <> 1) by (unfold i; rewrite Hn; lia).
-    set (s1 := mkState _ _ _ _).
-    destruct (IH (S j0) s1 pg0) as (s' & Hr & Hn' & Hp' & Ht' & Hf').
-    + lia.
-    + replace (S j0 + k)%nat with (j0 + S k)%nat by lia. exact Hb.
-    + unfold s1. cbn [next]. unfold u16, i. rewrite Hn. lia.
-    + unfold s1. cbn [pings]. rewrite pget_pset. destruct (Nat.eqb_spec 0 j0); [lia|exact Hp].
-    + unfold s1. cbn [tbl]. destruct fx.
-      * rewrite tget_tdel. destruct (N.eqb_spec 1 i); [congruence|].
-        rewrite tget_tset. destruct (N.eqb_spec 1 i); [congruence|exact Ht].
-      * rewrite tget_tset. destruct (N.eqb_spec 1 i); [congruence|exact Ht].
-    + intros p Hp0. unfold s1. cbn [pings]. rewrite pget_pset.
-      destruct (Nat.eqb_spec p j0); [lia|]. apply Hfree. lia.
-    + exists s'. fold (fails (S j0) k). rewrite Hr.
-      replace (j0 + S k)%nat with (S j0 + k)%nat by lia. repeat split; auto.
-Qed.
-
-Section Wrap.
-Variables K1 K2 : nat.
-Hypothesis k_bound : N.of_nat (1 + K1) <= 65536.
-Hypothesis k_next : (N.of_nat (1 + K1) + 1) mod 65536 = 1.
-Hypothesis k_free : (1 + K1 <= K2)%nat.
-Hypothesis k_nz : K2 <> 0%nat.
-
-(* call 0 (id 1) | K1 failed calls | call K2 (id 1 again) | the reply for id 1 | timer of call 0 |
-   End of call 0 *)
-Definition wrap_mid_g : list event :=
-  fails 1 K1 ++ [Begin K2 true; Notify 1; Timeout 0%nat].
-Definition wrap_history_g : list event := Begin 0%nat true :: wrap_mid_g ++ [End 0%nat].
-
-Theorem wrap_collision_g fx :
-  exists s, run fx init_go wrap_history_g = Ok s /\
-    id_of s 0%nat = Some 1 /\ id_of s K2 = Some 1 /\
-    In (Notify 1) wrap_mid_g /\ ~ In (End 0%nat) wrap_mid_g /\ result_of s 0%nat = Some RTimeout /\
-    (exists pg, pget (pings s) K2 = Some pg /\ p_recv pg = true /\ p_phase pg = Waiting).
-Proof.
-  unfold wrap_history_g, wrap_mid_g. cbn [run step init_go init pings pget]. cbv zeta.
-  set (s1 := mkState _ _ _ _).
-  pose proof k_bound as Hk.
-  assert (H3 : next s1 = (N.of_nat 1 + 1) mod 65536) by reflexivity.
-  assert (H4 : pget (pings s1) 0%nat = Some (mkPing 1 false false false Waiting 0)) by reflexivity.
-  assert (H5 : tget (tbl s1) 1 = Some 0%nat) by reflexivity.
-  assert (H6 : forall p, (1 <= p)%nat -> pget (pings s1) p = None).
-  { intros p Hp. unfold s1. cbn [pings]. rewrite pget_pset. destruct (Nat.eqb_spec p 0); [exfalso; clear -Hp e; lia|reflexivity]. }
-  destruct (fails_run fx K1 1%nat s1 _ (le_n 1) Hk H3 H4 H5 H6) as (s2 & Hr & Hn & Hp0 & Ht & Hfree).
-  clearbody s1.
-  rewrite <- app_assoc, run_app, Hr.
-  assert (Hn1 : next s2 = 1) by (rewrite Hn; exact k_next).
-  assert (Hfresh : pget (pings s2) K2 = None) by (apply Hfree; exact k_free).
-  assert (Hne : Nat.eqb 0 K2 = false) by (apply Nat.eqb_neq; intros E; apply k_nz; symmetry; exact E).
-  assert (Hne' : Nat.eqb K2 0 = false) by (apply Nat.eqb_neq; exact k_nz).
-  cbn [app run step]. rewrite Hfresh. cbv zeta. rewrite Hn1.
-  cbn [tbl pings next cnt]. rewrite tget_tset, N.eqb_refl. rewrite pget_pset, Nat.eqb_refl.
-  cbn [p_closed p_id p_recv p_fired p_phase p_seq tbl pings next cnt set_pings].
-  rewrite !pget_pset, ?Hne, ?Hne', ?Nat.eqb_refl, Hp0.
-  cbn [p_closed p_id p_recv p_fired p_phase p_seq tbl pings next cnt set_pings orb].
-  rewrite !pget_pset, ?Hne, ?Hne', ?Nat.eqb_refl.
-  cbn [p_closed p_id p_recv p_fired p_phase p_seq tbl pings next cnt set_pings orb].
-  eexists. split; [reflexivity|].
-  unfold id_of, result_of. cbn [pings].
-  rewrite !pget_pset, ?Hne, ?Hne', ?Nat.eqb_refl. cbn [option_map p_id p_phase].
-  rewrite ?pget_pset, ?Hne, ?Hne', ?Nat.eqb_refl. cbn [option_map p_id p_phase].
-  split; [reflexivity|]. split; [reflexivity|].
-  split; [apply in_or_app; right; right; left; reflexivity|].
-  split.
-  { intros Hin. apply in_app_or in Hin. destruct Hin as [Hin|Hin].
-    - unfold fails in Hin. apply in_map_iff in Hin. destruct Hin as (j & Hj & _). discriminate.
-    - cbn [In] in Hin. destruct Hin as [H|[H|[H|H]]]; [inversion H|inversion H|inversion H|exact H]. }
-  split; [reflexivity|].
-  eexists. split; [reflexivity|]. split; reflexivity.
-Qed.
-
-End Wrap.
-
-Definition K65535 : nat := N.to_nat 65535.
-Definition K65536 : nat := N.to_nat 65536.
-
-Lemma k_bound' : N.of_nat (1 + K65535) <= 65536.
-Proof. unfold K65535. lia. Qed.
-Lemma k_next' : (N.of_nat (1 + K65535) + 1) mod 65536 = 1.
-Proof. unfold K65535. lia. Qed.
-Lemma k_free' : (1 + K65535 <= K65536)%nat.
-Proof. unfold K65535, K65536. lia. Qed.
-Lemma k_nz' : K65536 <> 0%nat.
-Proof. unfold K65536. lia. Qed.
-
-(* call 0 (id 1) | 65535 failed calls (ids 2..65535, 0) | call 65536 (id 1 again) |
+(* call 0 (id 1) | 65535 failed calls (ids 2..65535, 0) | call 1 (id 1 again) |
    the reply for id 1 | timer of call 0 | End of call 0 *)
-Definition wrap_mid : list event := wrap_mid_g K65535 K65536.
-Definition wrap_history : list event := wrap_history_g K65535 K65536.
+Definition wrap_mid : list event :=
+  [Sent 0%nat true; BulkFail 65535; Begin 1%nat; Sent 1%nat true; Notify 1; Timeout 0%nat].
+Definition wrap_history : list event := Begin 0%nat :: wrap_mid ++ [End 0%nat].
 
-Theorem wrap_collision fx :
-  exists s, run fx init_go wrap_history = Ok s /\
-    (* only calls 0 and 65536 were ever waiting; they were handed the same identifier *)
-    id_of s 0%nat = Some 1 /\ id_of s K65536 = Some 1 /\
+Theorem wrap_collision :
+  exists s, run true init_go wrap_history = Ok s /\
+    (* only calls 0 and 1 were ever outstanding; they were handed the same identifier *)
+    id_of s 0%nat = Some 1 /\ id_of s 1%nat = Some 1 /\
     (* the reply for identifier 1 was parsed while call 0 was waiting, yet call 0 timed out *)
-    In (Notify 1) wrap_mid /\ ~ In (End 0%nat) wrap_mid /\ result_of s 0%nat = Some RTimeout /\
+    In (Notify 1) wrap_mid /\ result_of s 0%nat = Some RTimeout /\
     (* it completed the other call instead *)
-    (exists pg, pget (pings s) K65536 = Some pg /\ p_recv pg = true /\ p_phase pg = Waiting).
-Proof. exact (wrap_collision_g K65535 K65536 k_bound' k_next' k_free' k_nz' fx). Qed.
+    (exists pg, pget (pings s) 1%nat = Some pg /\ p_recv pg = true /\ p_phase pg = Waiting).
+Proof.
+  eexists. split; [vm_compute; reflexivity|].
+  split; [vm_compute; reflexivity|]. split; [vm_compute; reflexivity|].
+  split; [cbn; tauto|]. split; [vm_compute; reflexivity|].
+  eexists. split; [vm_compute; reflexivity|]. split; reflexivity.
+Qed.
+
+(* the state in which call 1 begins is not young: that is the recorded class *)
+Theorem wrap_not_young :
+  exists s, run true init_go [Begin 0%nat; Sent 0%nat true; BulkFail 65535; Begin 1%nat] = Ok s /\
+            known_C19_wrap s = true.
+Proof. eexists. split; [vm_compute; reflexivity|]. vm_compute. reflexivity. Qed.
